@@ -6,6 +6,9 @@ Open Scope N_scope.
 
 Definition NAME_INVALID : N := variant HandRankName_NAMES "Invalid".
 Definition CLASS_INVALID : N := variant HandRankClass_NAMES "Invalid".
+Definition NAME_FLUSH : N := variant HandRankName_NAMES "Flush".
+Definition NAME_STRAIGHT : N := variant HandRankName_NAMES "Straight".
+Definition NAME_STRAIGHT_FLUSH : N := variant HandRankName_NAMES "StraightFlush".
 
 (* determine_name / determine_class: complete graphs over the 65 536 values (run-length encoded) *)
 Definition determine_name (v : N) : N := rle NAME_RLE v NAME_INVALID.
